@@ -1156,6 +1156,243 @@ Proof.
     destruct l as [r0|e0]; simpl in Fr; [|destruct Fr as [Fr _]; congruence].
     destruct Fr as [_ [Fc _]].
     destruct (core_traj (li_tfr li, w, pa) pre r0) as [r' [Et Ec]]. rewrite Et. simpl in *.
-    rewrite tr_ok_core, Ec, Fc.
+    rewrite tr_ok_core, Ec, Fc. cbn [fst]. fold (cfold (li_tfr li) pre (fresh_core (li_text li))).
     rewrite (c_ok_problems (li_tfr li) pre _ (core_inv_holds _ _ _)). unfold want_ok. apply problems_nil.
+Qed.
+
+(* C04_summary *)
+Lemma sums_after i : finding_F18 i = false ->
+  let n0 := init (stack i) (set_after i) in
+  Forall2 (fun li sums => (if li_text li
+                           then forall2b (summary_okb (li_tfr li)) (before_stop_runs [] (hist i)) sums
+                           else match sums with [] => true | _ => false end) = true)
+          (leaf_infos (stack i)) (leaf_outs (fold_left do_op (hist i) n0)).
+Proof.
+  intros Hf n0. rewrite leaf_outs_lvs. unfold n0. rewrite lvs_after, map_map. apply F2_map_r.
+  eapply Forall2_impl; [|apply (setup i Hf)].
+  intros li [[[u w] pa] l]. unfold good; simpl. intros [Hu [_ [_ [Fr _]]]]. subst u.
+  destruct l as [r0|e0]; simpl in Fr.
+  - destruct Fr as [_ [Fc _]].
+    destruct (core_traj (li_tfr li, w, pa) (hist i) r0) as [r' [Et Ec]]. rewrite Et. simpl in Ec |- *.
+    assert (Eo : tr_out r' = c_out (core_of r')) by reflexivity. rewrite Eo, Ec, Fc.
+    fold (cfold (li_tfr li) (hist i) (fresh_core (li_text li))).
+    pose proof (c_out_after (li_tfr li) (fresh_core (li_text li)) (hist i) []) as O. simpl in O. rewrite O.
+    destruct (li_text li); [|reflexivity].
+    rewrite forall2b_map_r. apply forallb_forall. intros p _. apply summary_ok. apply core_inv_holds.
+  - destruct Fr as [_ [Ft _]]. rewrite Ft. destruct (e2s_traj (li_tfr li, w, pa) (hist i) e0) as [e' Et].
+    rewrite Et. reflexivity.
+Qed.
+
+(* ---------- the statement ---------- *)
+Theorem model_meets_spec : forall i, wf i -> finding_F18 i = false -> spec_okb i (model i) = true.
+Proof.
+  intros i Hwf Hf. unfold spec_okb, model. set (n0 := init (stack i) (set_after i)).
+  rewrite states_scan. apply andb_true_iff; split; [apply andb_true_iff; split|].
+  - unfold verdict_okb. cbn [o_ok]. destruct (has_e2s i) eqn:He; [reflexivity|]. simpl.
+    rewrite map_map. erewrite map_ext_in; [apply lbool_eqb_refl|].
+    intros pre _. apply was_ok_after; assumption.
+  - unfold stop_okb. cbn [o_leaf_stop o_stop]. apply andb_true_iff; split.
+    + rewrite map_map, forall2b_map_r. apply forallb_forall. intros pre _.
+      unfold n0. rewrite leaf_stops_after by exact Hf. apply lbool_eqb_refl.
+    + rewrite !map_map, forall2b_maps. apply forallb_forall. intros pre _.
+      rewrite should_stop_any. destruct (existsb _ _); reflexivity.
+  - unfold sums_okb. cbn [o_sums]. apply forall2b_F2. apply (sums_after i Hf).
+Qed.
+
+Lemma forall2b_sound {A B} (p : A -> B -> bool) (P : A -> B -> Prop) :
+  (forall a b, p a b = true -> P a b) -> forall l m, forall2b p l m = true -> Forall2 P l m.
+Proof.
+  intros H l. induction l as [|x r IH]; intros [|y s] E; simpl in E; try discriminate; constructor;
+    apply andb_true_iff in E as [E1 E2]; auto.
+Qed.
+
+Lemma lbool_eqb_eq a b : lbool_eqb a b = true -> a = b.
+Proof. apply (proj1 (list_eqb_spec Bool.eqb bool_eqb_spec a b)). Qed.
+
+Lemma sec_eq_dec (a b : nat * tid) : {a = b} + {a <> b}.
+Proof. decide equality; apply Nat.eq_dec. Qed.
+
+Lemma summary_okb_sound tfr h s : summary_okb tfr h s = true -> Summary_ok tfr h s.
+Proof.
+  unfold summary_okb, Summary_ok. intro H. apply andb_true_iff in H as [H H3]. apply andb_true_iff in H as [H1 H2].
+  apply Nat.eqb_eq in H1. split; [exact H1|].
+  assert (Ho : s_failed s = match problems (since_run h) with [] => None | _ => Some (length (problems (since_run h))) end).
+  { apply (proj1 (option_eqb_spec Nat.eqb Nat.eqb_eq _ _)). exact H2. }
+  split; [|split].
+  - unfold want_ok. rewrite <- problems_nil, Ho. destruct (problems (since_run h)); split; congruence.
+  - intros n Hn. rewrite Ho in Hn. destruct (problems (since_run h)); [discriminate|]. congruence.
+  - intro x. unfold same_sections in H3. rewrite forallb_forall in H3.
+    destruct (in_dec sec_eq_dec x (s_sections s ++ problems (since_run h))) as [Hin|Hn].
+    + apply Nat.eqb_eq. apply H3. exact Hin.
+    + assert (Z : forall l, ~ In x l -> count sec_eqb x l = 0).
+      { intros l Hl. unfold count. induction l as [|y l IH]; [reflexivity|]. simpl.
+        destruct (sec_eqb x y) eqn:E.
+        - exfalso. apply Hl. left. unfold sec_eqb in E.
+          apply (proj1 (pair_eqb_spec Nat.eqb Nat.eqb Nat.eqb_eq Nat.eqb_eq x y)) in E. congruence.
+        - apply IH. intro Hi. apply Hl. right. exact Hi. }
+      rewrite !Z; [reflexivity| |]; intro Hi; apply Hn; apply in_or_app; auto.
+Qed.
+
+Theorem spec_okb_sound : forall i o, spec_okb i o = true -> Spec i o.
+Proof.
+  intros i o H. unfold spec_okb in H. apply andb_true_iff in H as [H H3]. apply andb_true_iff in H as [H1 H2].
+  unfold stop_okb in H2. apply andb_true_iff in H2 as [H2a H2b]. unfold Spec. repeat split.
+  - intro He. unfold verdict_okb in H1. rewrite He in H1. simpl in H1. apply lbool_eqb_eq in H1. rewrite H1.
+    apply F2_map_r. clear. induction (prefixes (hist i)); constructor; auto.
+  - revert H2a. apply forall2b_sound. intros h stops E. apply lbool_eqb_eq in E. subst stops.
+    apply F2_map_r. clear. induction (leaf_infos (stack i)); constructor; auto.
+  - revert H2b. apply forall2b_sound. intros top stops E. apply (proj1 (bool_eqb_spec _ _)) in E. exact E.
+  - revert H3. apply forall2b_sound. intros li sums E. destruct (li_text li).
+    + revert E. apply forall2b_sound. intros h s. apply summary_okb_sound.
+    + destruct sums; [reflexivity|discriminate].
+Qed.
+
+(* ---------- stop() reaches everything below the node it is called on ---------- *)
+Theorem stop_reaches_all n : Forall (fun b => b = true) (leaf_stops (stop n)).
+Proof.
+  rewrite leaf_stops_lvs, lvs_stop, map_map. apply Forall_forall. intros b Hin.
+  apply in_map_iff in Hin as [l [<- _]]. destruct l; reflexivity.
+Qed.
+
+Theorem stop_at_reaches p n :
+  Forall2 (fun pa b => is_prefix p pa = true -> b = true) (fpaths (frame n)) (leaf_stops (stop_at p n)).
+Proof.
+  rewrite leaf_stops_lvs, stop_at_ok. unfold map2. rewrite map_map.
+  pose proof (fpaths_length n) as Hl. revert Hl. generalize (fpaths (frame n)) (lvs n).
+  induction l as [|pa l IH]; intros [|x m] Hl; simpl in Hl; try discriminate; simpl; constructor.
+  - unfold mark. simpl. intros ->. destruct x; reflexivity.
+  - apply IH. injection Hl as Hl. exact Hl.
+Qed.
+
+Theorem exit_status_ok ok : exit_status ok = 0 <-> ok = true.
+Proof. destruct ok; simpl; split; intro H; try reflexivity; discriminate. Qed.
+
+(* ---------- the comparison ---------- *)
+Lemma sec_eqb_spec a b : sec_eqb a b = true <-> a = b.
+Proof. apply pair_eqb_spec; apply Nat.eqb_eq. Qed.
+
+Lemma summary_eqb_spec a b : summary_eqb a b = true <-> a = b.
+Proof.
+  unfold summary_eqb. destruct a as [r1 f1 s1], b as [r2 f2 s2]; simpl.
+  rewrite !andb_true_iff, Nat.eqb_eq, (option_eqb_spec Nat.eqb Nat.eqb_eq).
+  unfold sec_list_eqb. rewrite (list_eqb_spec sec_eqb sec_eqb_spec).
+  split; [intros [[-> ->] ->]; reflexivity|intro H; injection H as -> -> ->; auto].
+Qed.
+
+Theorem obs_eqb_spec a b : obs_eqb a b = true <-> a = b.
+Proof.
+  unfold obs_eqb. destruct a as [a1 a2 a3 a4], b as [b1 b2 b3 b4]; simpl.
+  rewrite !andb_true_iff. unfold lbool_eqb.
+  rewrite !(list_eqb_spec Bool.eqb bool_eqb_spec).
+  rewrite (list_eqb_spec _ (list_eqb_spec Bool.eqb bool_eqb_spec)).
+  rewrite (list_eqb_spec _ (list_eqb_spec summary_eqb summary_eqb_spec)).
+  split; [intros [[[-> ->] ->] ->]; reflexivity|intro H; injection H as -> -> -> ->; auto].
+Qed.
+
+(* ---------- F18: the full statement is false of the faithful model ---------- *)
+Definition witness_F18a : input :=
+  {| stack := ATFR (ATR false false); set_after := Some true;
+     hist := [StartRun; StartTest 1; Outcome KError 1; StopTest 1] |}.
+Definition witness_F18b : input :=
+  {| stack := AMulti [ATR true false]; set_after := None; hist := [Outcome KError 1] |}.
+
+Theorem refuted_F18 :
+  (wf witness_F18a /\ finding_F18 witness_F18a = true /\ spec_okb witness_F18a (model witness_F18a) = false)
+  /\ (wf witness_F18b /\ finding_F18 witness_F18b = true /\ spec_okb witness_F18b (model witness_F18b) = false).
+Proof. vm_compute. repeat split. Qed.
+
+(* ====================================================================== *)
+(* 9. where F18 can occur                                                 *)
+(* ====================================================================== *)
+(* a stack state in which nobody has failfast *)
+Fixpoint all_off (n : node) : bool :=
+  match n with
+  | NTR r => negb (tr_ff r)
+  | NE2S e => negb (e_ff e)
+  | NMulti l => forallb (fun ec => negb (fst ec) && all_off (snd ec)) l
+  | NTFR ff e x => negb ff && negb e && all_off x
+  | NE2O e x => negb e && all_off x
+  | NDeco ff x => match ff with Some true => false | _ => all_off x end
+  end.
+
+Lemma all_off_get n : all_off n = true -> get_ff n = false.
+Proof.
+  induction n as [r|e|l IH|ff e x IH|e x IH|ff x IH] using node_ind'; simpl; intro H.
+  - apply negb_true_iff in H. exact H.
+  - apply negb_true_iff in H. exact H.
+  - destruct l as [|ec r]; [reflexivity|]. simpl in H. apply andb_true_iff in H as [H _].
+    apply andb_true_iff in H as [H1 H2]. inversion IH; subst.
+    destruct (has_ff (snd ec)); [auto|apply negb_true_iff in H1; exact H1].
+  - apply andb_true_iff in H as [H _]. apply andb_true_iff in H as [H _]. apply negb_true_iff in H. exact H.
+  - apply andb_true_iff in H as [H1 H2]. destruct (has_ff x); [auto|apply negb_true_iff in H1; exact H1].
+  - destruct ff as [[|]|]; try discriminate; reflexivity.
+Qed.
+
+Lemma all_off_e2o_get e x : e = false -> all_off x = true -> e2o_get (e, x) = false.
+Proof. intros -> H. unfold e2o_get; simpl. destruct (has_ff x); [apply all_off_get; exact H|reflexivity]. Qed.
+
+Lemma all_off_will n : all_off n = true -> forall cov, will_stop cov n = map (fun _ => cov) (lvs n).
+Proof.
+  induction n as [r|e|l IH|ff e x IH|e x IH|ff x IH] using node_ind'; simpl; intros H cov.
+  - apply negb_true_iff in H. rewrite H, orb_false_r. reflexivity.
+  - apply negb_true_iff in H. rewrite H, orb_false_r. reflexivity.
+  - induction IH as [|ec r Hx _ IHr]; [reflexivity|]. simpl in H |- *.
+    apply andb_true_iff in H as [H Hr]. apply andb_true_iff in H as [H1 H2]. apply negb_true_iff in H1.
+    rewrite map_app, <- IHr by exact Hr. f_equal.
+    destruct ec as [e c]; simpl in *. rewrite (all_off_e2o_get e c H1 H2), orb_false_r. apply Hx. exact H2.
+  - apply andb_true_iff in H as [H H3]. apply andb_true_iff in H as [H1 H2]. apply negb_true_iff in H2.
+    rewrite (all_off_e2o_get e x H2 H3), orb_false_r. apply IH. exact H3.
+  - apply andb_true_iff in H as [H1 H2]. apply negb_true_iff in H1.
+    rewrite (all_off_e2o_get e x H1 H2), orb_false_r. apply IH. exact H2.
+  - apply IH. destruct ff as [[|]|]; try discriminate; exact H.
+Qed.
+
+Lemma all_off_set n : all_off n = true -> all_off (set_ff false n) = true.
+Proof.
+  induction n as [r|e|l IH|ff e x IH|e x IH|ff x IH] using node_ind'; simpl; intro H; try reflexivity.
+  - rewrite forallb_forall_map. apply forallb_forall. intros ec Hin.
+    rewrite forallb_forall in H. specialize (H ec Hin). apply andb_true_iff in H as [H1 H2].
+    rewrite Forall_forall in IH. destruct (has_ff (snd ec)); simpl; [rewrite H1; simpl; apply IH; assumption|exact H2].
+  - apply andb_true_iff in H as [H H3]. apply andb_true_iff in H as [_ H2]. rewrite H2, H3. reflexivity.
+  - apply andb_true_iff in H as [H1 H2]. destruct (has_ff x); simpl; [rewrite H1; simpl; apply IH; exact H2|exact H2].
+  - destruct ff as [[|]|]; try discriminate; exact H.
+Qed.
+
+Lemma lvs_length_build a : length (lvs (build a)) = length (leaf_infos a).
+Proof.
+  pose proof (build_descr a false) as M. rewrite <- (descr_lvs (build a) false), map_length.
+  symmetry. clear -M. induction M; simpl; congruence.
+Qed.
+
+Lemma lvs_length_set b n : length (lvs (set_ff b n)) = length (lvs n).
+Proof.
+  pose proof (descr_set_ff b n false) as S. rewrite <- (descr_lvs n false), <- (descr_lvs (set_ff b n) false).
+  rewrite !map_length. clear -S. induction S; simpl; congruence.
+Qed.
+
+Lemma no_ctor_all_off a : ff_ctor_anywhere a = false -> all_off (build a) = true.
+Proof.
+  induction a as [ff txt| |l IH|x IH|x IH|t x IH] using adapter_ind'; simpl; intro H; try reflexivity;
+    try (apply IH; exact H).
+  - rewrite H. reflexivity.
+  - rewrite forallb_forall_map. apply forallb_forall. intros x Hin.
+    rewrite Forall_forall in IH.
+    assert (Hx : ff_ctor_anywhere x = false).
+    { destruct (ff_ctor_anywhere x) eqn:E; [|reflexivity].
+      assert (existsb ff_ctor_anywhere l = true) by (apply existsb_exists; eauto). congruence. }
+    unfold e2o_set; simpl. destruct (has_ff (build x)); simpl; [apply all_off_set|]; apply IH; assumption.
+Qed.
+
+Lemma no_ctor_infos a : ff_ctor_anywhere a = false -> Forall (fun li => li_ff li = false) (leaf_infos a).
+Proof.
+  induction a as [ff txt| |l IH|x IH|x IH|t x IH] using adapter_ind'; intro H;
+    try (simpl in *; apply Forall_forall; intros li Hin; apply in_map_iff in Hin as [li' [<- Hin']];
+         specialize (IH H); rewrite Forall_forall in IH; simpl; apply IH; exact Hin').
+  - simpl in *. constructor; [exact H|constructor].
+  - simpl. constructor; [reflexivity|constructor].
+  - rewrite leaf_infos_Multi. simpl in H. generalize 0.
+    induction IH as [|x r Hx _ IHr]; intro k; simpl; [constructor|].
+    simpl in H. apply orb_false_iff in H as [H1 H2]. apply Forall_app. split; [|apply IHr; exact H2].
+    apply Forall_forall. intros li Hin. apply in_map_iff in Hin as [li' [<- Hin']].
+    specialize (Hx H1). rewrite Forall_forall in Hx. simpl. apply Hx. exact Hin'.
 Qed.
